@@ -542,6 +542,9 @@ func (w *vfWorld) refKleene(n *refNode) (v Value, definite bool) {
 		if c, ok := w.consts[n.atom]; ok {
 			return c, true
 		}
+		if ph, ok := vfPlaceholder(n.atom); ok {
+			return ph, true
+		}
 		if !w.available(n.atom) {
 			return nil, false
 		}
